@@ -39,6 +39,7 @@ def p_values():
     for j in range(1, 12):
         b = 2.0 ** -(j + 0.5)
         ps += [b * (1 - 1e-6), b, b * (1 + 1e-6), b * 0.99, b * 1.01, b * (1 - 1e-10), b * (1 + 1e-10)]
+    ps += [1.5e-45, 1e-45, 7e-46, 1e-46, 1e-50, 1e-300, 5e-324]  # around and below the smallest positive 32-bit float
     return ps
 
 
@@ -66,6 +67,16 @@ def lib_accepts(P, n, p, small):
 def check_bloom(ctx, P, n, p, rng):
     sz = refimpl.bloom_sizing(n, p)
     if sz is None:
+        if 0.0 < p < 1.0 and refimpl.f32(float(p)) == 0.0 and n >= 1:
+            # a rate that is 0 as a 32-bit float: the promised size ceil(-n ln p32 / ln^2 2) is unbounded and the stored rate cannot
+            # reproduce any geometry - the constructor has to refuse it (it does: the logarithm fails); accepting it is a violation
+            try:
+                f = P.BloomFilter(n, p)
+            except Exception:
+                ctx.count("bloom.rates_below_float32_refused")
+                return
+            ctx.fail(f"the constructor accepts est_elements={n}, rate={p!r} although the rate is 0 as a 32-bit float: no finite geometry honours it", bits=f.number_bits, hashes=f.number_hashes,
+                     stored_rate=f.false_positive_rate)
         return
     ms, ks, p32 = sz
     approx_m = min(ms)
